@@ -203,6 +203,18 @@ var cBaseTypes = map[string]types.Type{
 
 var cUserStructs = map[string]types.Type{}
 
+// the aggregation-tree node of bls_core.c: struct st_node { E1 *sig; E2 *pk; struct st_node *left, *right; }
+func init() {
+	n := types.NewNamed(types.NewTypeName(token.NoPos, cPkg, "node", nil), nil, nil)
+	n.SetUnderlying(types.NewStruct([]*types.Var{
+		types.NewField(token.NoPos, cPkg, "sig", types.NewPointer(ctE1), false),
+		types.NewField(token.NoPos, cPkg, "pk", types.NewPointer(ctE2), false),
+		types.NewField(token.NoPos, cPkg, "left", types.NewPointer(n), false),
+		types.NewField(token.NoPos, cPkg, "right", types.NewPointer(n), false)}, nil))
+	cUserStructs["node"] = n
+	cUserStructs["st_node"] = n
+}
+
 var reCArr = regexp.MustCompile(`^(.*?)\s*\[(\d*)\]$`)
 
 func parseCType(q string) (types.Type, error) {
@@ -1852,12 +1864,15 @@ func (g *CGen) call(n *cNode) cVal {
 		envPost.vars = nv
 	}
 	if spec != nil {
-		for _, c := range spec.Ensures {
+		for _, c := range append(append([]Clause{}, spec.Ensures...), spec.Assumed...) {
 			s, err := envPost.EvalBool(c.Expr)
 			if err != nil {
 				specFail("%s: ensures of %s: %v", c.Pos, key, err)
 			}
 			g.assumePC(s)
+		}
+		if len(spec.Assumed) > 0 {
+			g.Warnings = append(g.Warnings, fmt.Sprintf("assumed (unverified) postcondition of %s used", key))
 		}
 	}
 	_ = ce
